@@ -56,6 +56,23 @@ POSITIONS = [
     ('class-base', 'def scope_function(parameter_name):\n class LocalClass(base({E})):\n  pass\n return parameter_name\nobs(scope_function(1))\n'),
     ('fstring', "def scope_function(parameter_name):\n inner_local=f'{({E},parameter_name)[1]}'\n return inner_local\nobs(scope_function(1))\n"),
     ('annotation', 'def scope_function(parameter_name):\n def annotated_function(inner_argument:({E},int)[1]=5)->({E},int)[1]:\n  return inner_argument\n return annotated_function()+parameter_name\nobs(scope_function(1))\n'),
+    ('ann-arg-only', 'def scope_function(parameter_name):\n def annotated_function(inner_argument:({E},int)[1]=5):\n  return inner_argument\n return annotated_function()+parameter_name\nobs(scope_function(1))\n'),
+    ('ann-return-only', 'def scope_function(parameter_name):\n def annotated_function(inner_argument=5)->({E},int)[1]:\n  return inner_argument\n return annotated_function()+parameter_name\nobs(scope_function(1))\n'),
+    ('ann-vararg', 'def scope_function(parameter_name):\n def annotated_function(*inner_arguments:({E},int)[1],**inner_keywords:int):\n  return len(inner_arguments)\n return annotated_function()+parameter_name\nobs(scope_function(1))\n'),
+    ('ann-kwonly', 'def scope_function(parameter_name):\n def annotated_function(*,inner_argument:({E},int)[1]=5):\n  return inner_argument\n return annotated_function()+parameter_name\nobs(scope_function(1))\n'),
+    ('ann-variable', 'module_annotated:({E},int)[1]=1\ndef scope_function(parameter_name):\n inner_local=parameter_name\n return inner_local+inner_local\nobs(scope_function(1))\n'),
+    ('ann-class-attr', 'class ScopeClass:\n class_attribute:({E},int)[1]=1\n def method(self,method_argument):\n  method_local=method_argument\n  return method_local+method_local\nobs(ScopeClass().method(2))\n'),
+    ('lambda-default', 'def scope_function(parameter_name):\n inner_local=lambda lambda_argument=({E},3)[1]:lambda_argument+parameter_name\n return inner_local()\nobs(scope_function(1))\n'),
+    ('kwonly-default', 'def scope_function(parameter_name):\n def defaulted_function(*,inner_argument=({E},5)[1]):\n  return inner_argument\n return defaulted_function()+parameter_name\nobs(scope_function(1))\n'),
+    ('class-keyword', 'def scope_function(parameter_name):\n class LocalClass(metaclass=meta({E})):\n  pass\n return parameter_name\nobs(scope_function(1))\n'),
+    ('class-decorator', 'def scope_function(parameter_name):\n @deco({E})\n class LocalClass:\n  pass\n return parameter_name\nobs(scope_function(1))\n'),
+    ('fstring-spec', "def scope_function(parameter_name):\n inner_local=f'{parameter_name:{({E},2)[1]}}'\n return inner_local\nobs(scope_function(1))\n"),
+    ('match-guard', 'def scope_function(parameter_name):\n match parameter_name:\n  case captured_value if ({E},1)[1]:\n   return captured_value\n return 0\nobs(scope_function(1))\n'),
+    ('typeparam-bound', 'def scope_function[TypeParam:({E},int)[1]](parameter_name):\n inner_local=parameter_name\n return inner_local+inner_local\nobs(scope_function(1))\n'),
+    ('assert-message', 'def scope_function(parameter_name):\n assert parameter_name,({E},"message")[1]\n inner_local=parameter_name\n return inner_local+inner_local\nobs(scope_function(1))\n'),
+    ('walrus-value', 'def scope_function(parameter_name):\n if (inner_local:=({E},parameter_name)[1]):\n  return inner_local+inner_local\n return 0\nobs(scope_function(1))\n'),
+    ('del-subscript', 'def scope_function(parameter_name):\n inner_local={{1:2,0:3}}\n del inner_local[({E},1)[1]]\n return len(inner_local)+parameter_name\nobs(scope_function(1))\n'.replace('{{','{').replace('}}','}')),
+    ('except-type', 'def scope_function(parameter_name):\n try:\n  inner_local=parameter_name\n except (({E},KeyError)[1],) as caught_error:\n  obs(caught_error)\n return inner_local\nobs(scope_function(1))\n'),
     ('after-local-import', 'def scope_function(parameter_name):\n import itertools\n import os.path as local_path\n {E}\n return (parameter_name,itertools.__name__,local_path.__name__)\nobs(scope_function(1))\n'),
     ('try', 'def scope_function(parameter_name):\n try:\n  {E}\n except Exception as caught_error:\n  obs(caught_error)\n finally:\n  inner_local=parameter_name\n return inner_local\nobs(scope_function(1))\n'),
     ('with', 'def scope_function(parameter_name):\n with cm(parameter_name) as managed_value:\n  {E}\n return managed_value\nobs(scope_function(1))\n'),
